@@ -241,6 +241,8 @@ Proof.
   pose proof (next_c_rng c f Hc) as Hnc. pose proof (w_vr _ _ _ _ HW _ Hnc) as Hvp.
   mstep H. mstep H. destruct a0; [|discriminate].
   mstep H. mstep H. vtx_created. subst.
+  pose proof (prev_c_rng a f Ha) as Hpa.
+  mstep H. vtx_created. subst. mstep H.
   mstep H. mstep H. mstep H. prim. subst. sproj.
   mstep H. mstep H. mstep H. prim. subst. sproj.
   mstep H. vtx_created. mstep H. prim. subst. sproj.
@@ -265,7 +267,9 @@ Proof.
   pose proof (next_c_rng _ f Hlx) as Hc. pose proof (next_c_rng _ f Hc) as Hnc. pose proof (w_vr _ _ _ _ HW _ Hnc) as Hvp.
   mstepO H. assert (f < nf) by lia.
   mstepO H. norm. mstepO H. norm. mstepO H. norm. mstepO H. norm. mstepO H. mstepO H. mstepO H.
-  mstepO H. norm. mstepO H. norm. mstepO H. norm. mstepO H. norm.
+  pose proof (prev_c_rng a f Ha) as Hpa.
+  mstepO H. norm. mstepO H. norm. mstepO H.
+  mstepO H. norm. mstepO H. norm. mstepO H. norm.
   mstepO H. norm. mstepO H. norm. mstepO H. norm.
   mstepO H. norm. mstepO H. norm. mstepO H. norm. mstepO H. norm. mstepO H. norm. mstepO H. norm. discriminate H.
 Qed.
